@@ -126,67 +126,76 @@ static void tok_add(struct tok* t, uint8_t c) {
 }
 static struct tok WCODE[NWORDS];
 static void words_init(void) { for (int j = 0; j < NWORDS; j++) { WCODE[j].a = WCODE[j].b = 0; WCODE[j].n = 0; for (int i = 0; WORDS[j][i]; i++) tok_add(&WCODE[j], (uint8_t)WORDS[j][i]); } }
-static uint32_t word_of(const struct tok* t) { uint32_t r = W_NONE; for (uint32_t j = 0; j < NWORDS; j++) if (t->a == WCODE[j].a && t->b == WCODE[j].b && t->n == WCODE[j].n) r = j + 1; return r; }
+static uint32_t word_of(const struct tok* t) { uint32_t r = W_NONE; for (uint32_t j = 0; j < NWORDS; j++) r = (t->a == WCODE[j].a && t->b == WCODE[j].b && t->n == WCODE[j].n) ? j + 1 : r; return r; }
 
-enum { S_BOL, S_PREFIX, S_TEXT, S_MSGNAME, S_ATTR, S_QUOTE, S_VALUE, S_ESC, S_AFTER, S_CLOSE };
+/* The reader is a table-driven automaton over character classes (it runs once per written byte under symbolic
+ * execution, so it is written with a transition table and a few guarded actions instead of nested branches).
+ *
+ *   state      on class -> next state / action                                        anything else
+ *   BOL        NL -> BOL ; '#' -> PREFIX (first prefix character)                       -> TEXT
+ *   PREFIX     next character of "##teamcity[" -> PREFIX, after the last one MSGNAME    NL -> BOL, else TEXT (plain line)
+ *   TEXT       NL -> BOL                                                                -> TEXT
+ *   MSGNAME    letter -> MSGNAME (token) ; ' ' -> ATTR (name ends) ; ']' -> CLOSE        malformed
+ *   ATTR       letter -> ATTR (token) ; '=' -> QUOTE (attribute name ends)               malformed
+ *   QUOTE      ' -> VALUE                                                               malformed
+ *   VALUE      ' -> AFTER (value ends) ; | -> ESC ; [ ] LF CR -> malformed               -> VALUE (character taken as is)
+ *   ESC        ' | [ ] -> VALUE (that character) ; n r -> VALUE (LF, CR)                 malformed
+ *   AFTER      ' ' -> ATTR ; ']' -> CLOSE                                               malformed
+ *   CLOSE      NL -> BOL (message complete)                                             malformed
+ * malformed: flag it and treat the rest of the line as plain text. */
+enum { S_BOL, S_PREFIX, S_TEXT, S_MSGNAME, S_ATTR, S_QUOTE, S_VALUE, S_ESC, S_AFTER, S_CLOSE, NSTATES };
+enum { C_NL, C_CR, C_SP, C_EQ, C_QUOTE, C_BAR, C_LB, C_RB, C_HASH, C_LETTER, C_OTHER, NCLASSES };
+enum { A_NONE, A_BAD, A_PREFIX_FIRST, A_TOK, A_NAME_END, A_ATTR_END, A_EMIT, A_EMIT_LETTER, A_VAL_END, A_TOK_BEGIN, A_DELIVER, A_PREFIX_NEXT, A_MSG_BEGIN };
+#define GO(state, action) ((uint8_t)((action) << 4 | (state)))
+#define BAD GO(S_TEXT, A_BAD)
+#define TXT GO(S_TEXT, A_NONE)
+#define VAL GO(S_VALUE, A_EMIT)
+static const uint8_t TABLE[NSTATES][NCLASSES] = {
+  /*              NL                     CR    SP                      EQ                      QUOTE                    BAR                 LB   RB                       HASH                       LETTER                       OTHER */
+  /* BOL     */ { GO(S_BOL, A_NONE),     TXT,  TXT,                    TXT,                    TXT,                     TXT,                TXT, TXT,                     GO(S_PREFIX, A_PREFIX_FIRST), TXT,                      TXT },
+  /* PREFIX  */ { GO(S_BOL, A_NONE),     TXT,  TXT,                    TXT,                    TXT,                     TXT,                TXT, TXT,                     TXT,                       TXT,                         TXT },   /* (a matching prefix character is handled before the table) */
+  /* TEXT    */ { GO(S_BOL, A_NONE),     TXT,  TXT,                    TXT,                    TXT,                     TXT,                TXT, TXT,                     TXT,                       TXT,                         TXT },
+  /* MSGNAME */ { BAD,                   BAD,  GO(S_ATTR, A_NAME_END), BAD,                    BAD,                     BAD,                BAD, GO(S_CLOSE, A_NAME_END), BAD,                       GO(S_MSGNAME, A_TOK),        BAD },
+  /* ATTR    */ { BAD,                   BAD,  BAD,                    GO(S_QUOTE, A_ATTR_END), BAD,                    BAD,                BAD, BAD,                     BAD,                       GO(S_ATTR, A_TOK),           BAD },
+  /* QUOTE   */ { BAD,                   BAD,  BAD,                    BAD,                    GO(S_VALUE, A_NONE),     BAD,                BAD, BAD,                     BAD,                       BAD,                         BAD },
+  /* VALUE   */ { BAD,                   BAD,  VAL,                    VAL,                    GO(S_AFTER, A_VAL_END),  GO(S_ESC, A_NONE),  BAD, BAD,                     VAL,                       VAL,                         VAL },
+  /* ESC     */ { BAD,                   BAD,  BAD,                    BAD,                    VAL,                     VAL,                VAL, VAL,                     BAD,                       GO(S_VALUE, A_EMIT_LETTER),  BAD },
+  /* AFTER   */ { BAD,                   BAD,  GO(S_ATTR, A_TOK_BEGIN), BAD,                   BAD,                     BAD,                BAD, GO(S_CLOSE, A_NONE),     BAD,                       BAD,                         BAD },
+  /* CLOSE   */ { GO(S_BOL, A_DELIVER),  BAD,  BAD,                    BAD,                    BAD,                     BAD,                BAD, BAD,                     BAD,                       BAD,                         BAD },
+};
 #define MAXATTR 3
 /* the message being read */
-static struct { uint32_t state, k, nattr, kind, malformed, pending, lost; struct tok t; uint32_t attr[MAXATTR]; struct txt val[MAXATTR]; } R;
-
-static int is_letter(uint8_t c) { return (c >= 'a' && c <= 'z') || (c >= 'A' && c <= 'Z'); }
-static void tok_begin(void) { R.t.a = R.t.b = 0; R.t.n = 0; }
-static void on_message(void);
+static struct { uint32_t state, k, nattr, kind, malformed, pending, lost; struct tok t; struct txt cur; uint32_t attr[MAXATTR]; struct txt val[MAXATTR]; } R;
 static const char PREFIX[] = "##teamcity[";
-static void bad(void) { R.malformed = 1; R.state = S_TEXT; }
+static void on_message(void);
 
+static uint32_t class_of(uint8_t c) {
+  return c == '\n' ? C_NL : c == '\r' ? C_CR : c == ' ' ? C_SP : c == '=' ? C_EQ : c == '\'' ? C_QUOTE : c == '|' ? C_BAR : c == '[' ? C_LB : c == ']' ? C_RB : c == '#' ? C_HASH
+       : ((c >= 'a' && c <= 'z') || (c >= 'A' && c <= 'Z')) ? C_LETTER : C_OTHER;
+}
 static void reader_step(uint8_t c) {
-  switch (R.state) {
-    case S_BOL:
-      if (c == '#') { R.state = S_PREFIX; R.k = 1; } else if (c != '\n') R.state = S_TEXT;
-      break;
-    case S_PREFIX:
-      if (c == (uint8_t)PREFIX[R.k < 11 ? R.k : 0]) { R.k++; if (R.k == 11) { R.state = S_MSGNAME; tok_begin(); R.nattr = 0; } }
-      else R.state = c == '\n' ? S_BOL : S_TEXT;
-      break;
-    case S_TEXT:
-      if (c == '\n') R.state = S_BOL;
-      break;
-    case S_MSGNAME:
-      if (is_letter(c)) tok_add(&R.t, c);
-      else if (c == ' ' && R.t.n) { R.kind = word_of(&R.t); R.state = S_ATTR; tok_begin(); }
-      else if (c == ']' && R.t.n) { R.kind = word_of(&R.t); R.state = S_CLOSE; }
-      else bad();
-      break;
-    case S_ATTR:
-      if (is_letter(c)) tok_add(&R.t, c);
-      else if (c == '=' && R.t.n && R.nattr < MAXATTR) { R.attr[R.nattr] = word_of(&R.t); txt_clear(&R.val[R.nattr]); R.state = S_QUOTE; }
-      else bad();
-      break;
-    case S_QUOTE:
-      if (c == '\'') R.state = S_VALUE; else bad();
-      break;
-    case S_VALUE:
-      if (c == '\'') { R.nattr++; R.state = S_AFTER; }
-      else if (c == '|') R.state = S_ESC;
-      else if (c == '[' || c == ']' || c == '\n' || c == '\r') bad();      /* raw meta character inside a value */
-      else txt_add(&R.val[R.nattr < MAXATTR ? R.nattr : 0], c);
-      break;
-    case S_ESC:
-      R.state = S_VALUE;
-      if (c == '\'' || c == '|' || c == '[' || c == ']') txt_add(&R.val[R.nattr < MAXATTR ? R.nattr : 0], c);
-      else if (c == 'n') txt_add(&R.val[R.nattr < MAXATTR ? R.nattr : 0], '\n');
-      else if (c == 'r') txt_add(&R.val[R.nattr < MAXATTR ? R.nattr : 0], '\r');
-      else bad();
-      break;
-    case S_AFTER:
-      if (c == ' ') { R.state = S_ATTR; tok_begin(); }
-      else if (c == ']') R.state = S_CLOSE;
-      else bad();
-      break;
-    default: /* S_CLOSE */
-      if (c == '\n') { if (R.pending) R.lost = 1; R.pending = 1; R.state = S_BOL; } else bad();
-      break;
-  }
+  uint32_t s = R.state < NSTATES ? R.state : S_TEXT, cls = class_of(c);
+  uint32_t e = (s == S_PREFIX && c == (uint8_t)PREFIX[R.k < 11 ? R.k : 0]) ? (R.k == 10 ? GO(S_MSGNAME, A_MSG_BEGIN) : GO(S_PREFIX, A_PREFIX_NEXT)) : TABLE[s][cls];
+  uint32_t act = e >> 4, ns = e & 15;
+  uint32_t w = word_of(&R.t);
+  uint8_t d = c;
+  /* side conditions of the actions */
+  if ((act == A_NAME_END || act == A_ATTR_END) && R.t.n == 0) act = A_BAD;                   /* empty name */
+  if ((act == A_ATTR_END || (act == A_TOK && s == S_ATTR)) && R.nattr >= MAXATTR) act = A_BAD; /* more attributes than any message of this vocabulary has */
+  if (act == A_EMIT_LETTER) { if (c == 'n') d = '\n'; else if (c == 'r') d = '\r'; else act = A_BAD; }
+  if (act == A_BAD) { R.malformed = 1; ns = S_TEXT; }
+  /* actions */
+  if (act == A_PREFIX_FIRST) R.k = 1;
+  if (act == A_PREFIX_NEXT || act == A_MSG_BEGIN) R.k++;
+  if (act == A_MSG_BEGIN) R.nattr = 0;
+  if (act == A_TOK) tok_add(&R.t, c);
+  if (act == A_NAME_END) R.kind = w;
+  if (act == A_ATTR_END) { if (R.nattr == 0) R.attr[0] = w; else if (R.nattr == 1) R.attr[1] = w; else R.attr[2] = w; txt_clear(&R.cur); }
+  if (act == A_MSG_BEGIN || act == A_NAME_END || act == A_TOK_BEGIN) { R.t.a = R.t.b = 0; R.t.n = 0; }
+  if (act == A_EMIT || act == A_EMIT_LETTER) txt_add(&R.cur, d);
+  if (act == A_VAL_END) { if (R.nattr == 0) R.val[0] = R.cur; else if (R.nattr == 1) R.val[1] = R.cur; else R.val[2] = R.cur; R.nattr++; }
+  if (act == A_DELIVER) { if (R.pending) R.lost = 1; R.pending = 1; }
+  R.state = ns;
 }
 /* a complete message is handed to the checker at the end of the write that completed it */
 static void reader_flush(void) { if (R.pending) on_message(); R.pending = 0; }
@@ -223,22 +232,21 @@ static void on_message(void) {
     case K_TEST_FAILED:
       if (!C.test_open || !named || n != 3 || R.attr[1] != A_MESSAGE || R.attr[2] != A_DETAILS || !txt_eq(&R.val[0], &C.tname)) C.bad_structure = 1;
       C.failed_seen++;
-      if (C.ti < NT && n == 3) {
-        const struct t_test* t = &T[C.ti < MAXT ? C.ti : 0];
-        if (!txt_eq(&R.val[1], &t->location_t)) C.bad_value = 1;          /* where it failed */
-        if (!txt_eq(&R.val[2], &t->fmsg_t)) C.bad_value = 1;              /* the failure message */
+      for (uint32_t i = 0; i < MAXT; i++) if (i == C.ti && i < NT && n == 3) {
+        if (!txt_eq(&R.val[1], &T[i].location_t)) C.bad_value = 1;        /* where it failed */
+        if (!txt_eq(&R.val[2], &T[i].fmsg_t)) C.bad_value = 1;            /* the failure message */
       }
       break;
     case K_TEST_FINISH:
       if (!C.test_open || !named || n != 2 || R.attr[1] != A_DURATION || !txt_eq(&R.val[0], &C.tname)) C.bad_structure = 1;
       C.test_open = 0;
-      if (C.ti < NT) {
-        const struct t_test* t = &T[C.ti < MAXT ? C.ti : 0];
-        if (!txt_eq(&C.tname, &t->name_t) || !txt_eq(&C.sname, &t->group_t)) C.bad_value = 1;     /* names decode to the originals */
-        if (C.ignored_seen != t->ignored) C.bad_structure = 1;                                   /* flagged ignored iff ignored */
-        if (C.failed_seen != t->fails) C.bad_structure = 1;                                      /* one failure message iff it failed */
+      if (C.ti >= NT) C.bad_structure = 1;                                                         /* more tests than the run has */
+      for (uint32_t i = 0; i < MAXT; i++) if (i == C.ti && i < NT) {
+        if (!txt_eq(&C.tname, &T[i].name_t) || !txt_eq(&C.sname, &T[i].group_t)) C.bad_value = 1;   /* names decode to the originals */
+        if (C.ignored_seen != T[i].ignored) C.bad_structure = 1;                                  /* flagged ignored iff ignored */
+        if (C.failed_seen != T[i].fails) C.bad_structure = 1;                                     /* one failure message iff it failed */
         if (n == 2 && !(R.val[1].n == 1 && R.val[1].w[0] == '0')) C.bad_value = 1;                /* time model: the clock stands still */
-      } else C.bad_structure = 1;
+      }
       C.ti++;
       break;
     default:
